@@ -317,6 +317,28 @@ impl<'tcx> M<'tcx> {
                 }
             }
         }
+        if n.ends_with("::fold") && vals.len() == 3 && matches!(vals[0].0, V::SliceIter(..) | V::Obj(..)) {
+            // Iterator::fold over a modelled iterator: left fold in iteration order
+            let mut it = vals[0].0.clone();
+            let (mut acc, acc_ty) = vals[1].clone();
+            let (fv, fty) = vals[2].clone();
+            let item_ty = match peel_refs(vals[0].1).kind() {
+                ty::Adt(_, a) => a.types().next().map(|t| Ty::new_imm_ref(tcx, tcx.lifetimes.re_erased, t)),
+                _ => None,
+            };
+            loop {
+                let nx = self.iter_method(&mut it, "next")?;
+                match nx {
+                    V::Enum(1, mut e) => {
+                        let item = e.remove(0);
+                        let ity = item_ty.unwrap_or(acc_ty);
+                        acc = self.call_callable(fv.clone(), fty, vec![(acc, acc_ty), (item, ity)], acc_ty)?;
+                    }
+                    _ => break,
+                }
+            }
+            return Ok(Some(acc));
+        }
         if n == "std::iter::Iterator::zip" || n == "std::iter::zip" {
             let a = vals[0].0.clone();
             let b = vals[1].0.clone();
